@@ -28,7 +28,69 @@ void far_copies(uint8_t *d, size_t n, uint64_t seed)
         }
 }
 
+static std::vector<uint8_t> make_data0(const Json &spec);
+
+// "afin": the Adler-32 of the whole data is steered to a boundary value by adjusting bytes near the end - A (low half) with the last
+// 260 bytes, B (high half) with pairs of opposite adjustments further up, which leave A alone.  afin & 3: A becomes 0 / 65520 / a value
+// below 15; (afin >> 2) & 3: the same for B.  1 in 65521 random inputs has A == 0; a reduction that is off by one shows only there.
+static void tune_adler(std::vector<uint8_t> &d, int afin, uint64_t s)
+{
+        const uint32_t M = 65521;
+        size_t n = d.size();
+        int ta = afin & 3, tb = (afin >> 2) & 3;
+        if (n < 300 || (tb && n < 1400))
+                return;
+        if (tb)
+                memset(d.data() + n - 1300, 128, 900);
+        auto sums = [&](uint32_t &A, uint32_t &B) {
+                uint64_t a = 1, b = 0;
+                for (uint8_t v : d) {
+                        a += v;
+                        if (a >= M)
+                                a -= M;
+                        b += a;
+                        if (b >= M)
+                                b -= M;
+                }
+                A = (uint32_t) a;
+                B = (uint32_t) b;
+        };
+        auto target = [&](int t, uint64_t salt) -> uint32_t { return t == 1 ? 0 : t == 2 ? M - 1 : (uint32_t) ((s ^ salt) % 15); };
+        uint32_t A, B;
+        if (ta) {
+                for (size_t i = n - 260; i < n; i++)
+                        d[i] = 0; // room to add up to 65520
+                sums(A, B);
+                uint32_t need = (target(ta, 0) + M - A) % M;
+                for (size_t i = n; i-- > n - 260 && need;) {
+                        uint32_t add = std::min<uint32_t>(need, 255u - d[i]);
+                        d[i] = (uint8_t) (d[i] + add);
+                        need -= add;
+                }
+        }
+        if (tb) {
+                sums(A, B);
+                uint32_t rem = (target(tb, 0x5bd1) + M - B) % M;
+                size_t i = n - 1300;
+                while (rem) {
+                        uint32_t g = std::min<uint32_t>(516, rem), dd = rem / g;
+                        d[i] = (uint8_t) (d[i] + dd);
+                        d[i + g] = (uint8_t) (d[i + g] - dd);
+                        rem -= dd * g;
+                        i++;
+                }
+        }
+}
+
 std::vector<uint8_t> make_data(const Json &spec)
+{
+        std::vector<uint8_t> d = make_data0(spec);
+        if (int afin = (int) (spec.geti("afin") & 15))
+                tune_adler(d, afin, (uint64_t) spec.geti("s"));
+        return d;
+}
+
+static std::vector<uint8_t> make_data0(const Json &spec)
 {
         int kind = (int) (((uint64_t) spec.geti("k")) % DK_NKINDS);
         uint64_t n = (uint64_t) spec.geti("n");
@@ -90,8 +152,68 @@ std::vector<uint8_t> make_data(const Json &spec)
                 }
                 return d;
         }
+        if (kind == DK_ALLSYMS) {
+                // A block that uses the whole alphabet, the largest trees the table builders ever see: every byte value as a literal,
+                // one repeated string for each of the 29 length symbols (257..285) and - with p&1 - one copy for each of the 30 distance
+                // symbols.  No match finder looks for 3-byte matches; the only producer of length symbol 257 is the level-3 vector path,
+                // when an 8-15 byte match ends three bytes before the end of an overlapping longer match from a more recent source: the
+                // "gadget" below builds that.  Sizes itself (5-50 KiB).
+                std::vector<uint8_t> d;
+                auto putr = [&](uint64_t l) {
+                        while (l--)
+                                d.push_back((uint8_t) r.u64());
+                };
+                auto put = [&](const uint8_t *s, size_t l) { d.insert(d.end(), s, s + l); };
+                if (p & 1) {
+                        static const uint32_t base[30] = { 1,   2,   3,   4,   5,    7,    9,    13,   17,   25,   33,   49,   65,    97,    129,
+                                                           193, 257, 385, 513, 769,  1025, 1537, 2049, 3073, 4097, 6145, 8193, 12289, 16385, 24577 };
+                        putr(32768 + r.below(200));
+                        for (int c = 29; c >= 0; c--) {
+                                uint32_t hi = c == 29 ? 32768 : base[c + 1] - 1, dist = base[c] + (uint32_t) r.below(hi - base[c] + 1);
+                                uint64_t len = 4 + r.below(12);
+                                for (uint64_t k = 0; k < len; k++)
+                                        d.push_back(d[d.size() - dist]);
+                                putr(6 + r.below(8));
+                        }
+                }
+                uint8_t mul = (uint8_t) (r.u64() | 1), add = (uint8_t) r.u64();
+                for (int i = 0; i < 256; i++)
+                        d.push_back((uint8_t) (i * mul + add));
+                putr(64);
+                {
+                        uint8_t x0 = (uint8_t) r.u64(), x1 = (uint8_t) r.u64(), R[16], q, v, w, y = (uint8_t) r.u64();
+                        for (auto &b : R)
+                                b = (uint8_t) r.u64();
+                        int ov = (int) (13 + r.below(3)) - 13; // 0 in the exact gadget; 1 or 2 vary the overlap
+                        do
+                                q = (uint8_t) r.u64();
+                        while (q == R[13]);
+                        do
+                                v = (uint8_t) r.u64();
+                        while (v == x1);
+                        do
+                                w = (uint8_t) r.u64();
+                        while (w == y);
+                        d.push_back(x0), d.push_back(x1), put(R, 13 - (r.chance(1, 3) ? ov : 0)), d.push_back(q), putr(24);
+                        d.push_back(v), put(R, 16), d.push_back(w), putr(24);
+                        d.push_back(x0), d.push_back(x1), put(R, 16), d.push_back(y), putr(24);
+                }
+                static const int L[] = { 4, 5, 6, 7, 8, 9, 10, 11, 13, 15, 17, 19, 23, 27, 31, 35, 43, 51, 59, 67, 83, 99, 115, 131, 163, 195, 227, 258 };
+                static const int Lhi[] = { 4, 5, 6, 7, 8, 9, 10, 12, 14, 16, 18, 22, 26, 30, 34, 42, 50, 58, 66, 82, 98, 114, 130, 162, 194, 226, 257, 258 };
+                for (size_t c = 0; c < sizeof L / sizeof L[0]; c++) {
+                        uint8_t W[300];
+                        int l = (p & 2) ? L[c] + (int) r.below(Lhi[c] - L[c] + 1) : L[c];
+                        for (int i = 0; i < l; i++)
+                                W[i] = (uint8_t) r.u64();
+                        put(W, l), putr(12), put(W, l), putr(12);
+                }
+                putr((p & 4) ? r.below(3000) : 700);
+                return d;
+        }
         if (kind == DK_LITCOPY) // sizes itself: one block of literals, the copies, a short tail
-                n = 44000 + r.below(16000);
+                n = (p & 1) ? 80000 + r.below(30000) : 44000 + r.below(16000);
+        if (kind == DK_RARE && n < 12000) // the stretches' codes are only long in a block with thousands of other literals
+                n = 12000 + r.below(50000);
         std::vector<uint8_t> d(n);
         switch (kind) {
         case DK_RANDOM:
@@ -174,9 +296,43 @@ std::vector<uint8_t> make_data(const Json &spec)
                 for (auto &b : d)
                         b = (uint8_t) r.u64();
                 uint64_t lit = 30000 + r.below(12000);
+                if (p & 2) {
+                        // second layout: the copies' sources are one 4 KiB region at the end of the literals, and 16-19 KiB of near matches
+                        // (byte runs, short repeats at small distances) lie between it and the copies: the distance tree then holds near
+                        // and far symbols, which makes the far symbols' codes - and with them every one of the far tokens - longer
+                        lit = 20000 + r.below(22000);
+                        uint64_t M = 16200 + r.below(2500), i = lit, endM = lit + M;
+                        int style = (int) r.below(3);
+                        while (i < endM && i < n) {
+                                uint64_t seg = style == 0 ? endM - i : 20 + r.below(600);
+                                if (seg > endM - i)
+                                        seg = endM - i;
+                                if (seg > n - i)
+                                        seg = n - i;
+                                uint64_t dist = style == 0 || r.chance(1, 2) ? 1 : 1 + r.logsize(4000);
+                                if (style == 2 && r.chance(1, 3))
+                                        dist = 0; // stays literal
+                                for (uint64_t k = 0; k < seg && dist; k++)
+                                        d[i + k] = k < 4 && dist == 1 ? d[i + k] : d[i + k - dist];
+                                i += seg;
+                        }
+                        uint64_t budget = 32768 - 4096 - M;
+                        for (int c = (int) (30 + r.below(31)); c > 0 && i + 260 < n; c--) {
+                                uint64_t len = 131 + r.below(120), src = lit - 4096 + r.below(4096 - 260);
+                                if (len > budget)
+                                        break;
+                                budget -= len;
+                                for (uint64_t k = 0; k < len; k++)
+                                        d[i + k] = d[src + k];
+                                i += len;
+                        }
+                        if (r.chance(1, 2) && i + 16 < n)
+                                d.resize(i + 16);
+                        break;
+                }
                 if (lit + 2000 < n) {
                         uint64_t i = lit;
-                        for (int c = (int) (30 + r.below(31)); c > 0 && i < n; c--) {
+                        for (int c = (int) ((p & 1) ? 60 + r.below(200) : 30 + r.below(31)); c > 0 && i < n; c--) {
                                 uint64_t len = 131 + r.below(120), dist = 17000 + r.below(12000);
                                 if (len > n - i)
                                         len = n - i;
@@ -195,6 +351,36 @@ std::vector<uint8_t> make_data(const Json &spec)
                         if (k > 40)
                                 k = 40;
                         b = (uint8_t) ((k * 37 + perm) & 0xff);
+                }
+                break;
+        }
+        case DK_RARE: { // word-like text over a small alphabet with one to four stretches (32-160 bytes) of byte values that occur nowhere
+                        // else (a binary header inside a log): those literals get the longest codes of the block, and a stretch of them is
+                        // the densest run of bits per token that stays below the token encoders' long-code limit
+                std::vector<std::vector<uint8_t>> words(20 + r.below(200));
+                for (auto &w : words) {
+                        w.resize(2 + r.below(9));
+                        for (auto &b : w)
+                                b = (uint8_t) ('a' + r.below(26));
+                }
+                uint64_t i = 0;
+                while (i < n) {
+                        const auto &w = words[r.below(words.size())];
+                        for (size_t k = 0; k < w.size() && i < n; k++)
+                                d[i++] = w[k];
+                        if (i < n)
+                                d[i++] = r.chance(1, 12) ? '\n' : ' ';
+                }
+                // the stretches draw from a set of 16-128 values: how often each occurs (against the size of the block) decides
+                // whether the literals' codes come out at 10 or at 15 bits
+                static const uint32_t Ss[] = { 16, 32, 48, 64, 96, 128 };
+                uint32_t S = r.pick(Ss);
+                bool once = r.chance(2, 3); // every value in turn (the longest codes)
+                uint8_t next = 0;
+                for (int st = (int) (1 + r.below(4)); st > 0 && n > 400; st--) {
+                        uint64_t len = 32 + r.below(129), at = r.below(n - len);
+                        for (uint64_t k = 0; k < len; k++)
+                                d[at + k] = (uint8_t) (0x80 + (once ? next++ % S : r.below(S)));
                 }
                 break;
         }
@@ -250,13 +436,17 @@ Json gen_data_spec(Rng &r, uint64_t maxlen, int bias)
         }
         if (n > maxlen)
                 n = maxlen;
+        if (const char *fk = getenv("SIM_FORCE_KIND")) // diagnostic only: steer a hand-run batch to one data kind
+                k = atoi(fk);
         j.set("k", k).set("n", n).set("s", r.u64() >> 16).set("p", p);
+        if (r.chance(1, 40))
+                j.set("afin", (int) (1 + r.below(15)));
         return j;
 }
 
 uint32_t gen_chunk(Rng &r, int mode, uint32_t big)
 {
-        static const uint32_t edge[] = { 0, 1, 2, 3, 7, 8, 9, 15, 16, 17, 31, 32, 33, 63, 64, 65, 255, 256, 257, 258, 259, 287, 288, 289, 327, 328, 329, 65535, 65536, 65537 };
+        static const uint32_t edge[] = { 0, 1, 2, 3, 7, 8, 9, 15, 16, 17, 31, 32, 33, 47, 48, 49, 55, 56, 57, 63, 64, 65, 255, 256, 257, 258, 259, 287, 288, 289, 327, 328, 329, 65535, 65536, 65537 };
         switch (mode % 6) {
         case 0:
                 return (uint32_t) r.below(11); // tiny incl. 0
